@@ -3,6 +3,7 @@ import MesonModel.Options.MergeLemmas
 import MesonModel.Options.TopLemmas
 import MesonModel.Options.WfOps
 import MesonModel.Options.ParentOps
+import MesonModel.Options.SubLemmas
 /-
 C07 — option values resolve by the documented precedence and are always valid.
 Statements over the model `MesonModel.Options` (options.py:356-640, 773-1417; cmdline.py:222-241).
@@ -306,6 +307,93 @@ theorem set_user_option_frame (k : Key) (id : Nat) (key : Key) (v : Val) (first 
     (hown : OwnObject k.name id s) : SameObs k id s (setUserOption key v first s).2 :=
   (Fr.setUserOption k id key v first hname hnp hd).run s hown
 
+/-! ## subproject precedence through the whole call, generally
+
+`GoodSub ks id s o x` (Options/SubLemmas.lean): the option is a global one (object `id` = `o`, not yielding, own
+object), the subproject has no option object of its own under `ks = sub:n`, it is not a builtin with path
+sanitisation, and `x` is the per-subproject override present before the call (`none` on a first configuration). -/
+
+/-- `subproject_precedence`: **for every store, option class, all values and arbitrary input dicts** (any other
+options, valid or not, `buildtype`, other subprojects, pending options; entries naming `n` must be host-machine
+keys): if `initialize_from_subproject_call` completes, what subproject `sub` sees for option `n` is
+* an override that already existed (`x`), else
+* the cleaned value of the **last defined** source among the documented steps
+  8 command line `sub:n`, 7 machine file `sub:n`, 6 `subproject(default_options:)`, 5 parent `sub:n`
+  (`pending_subproject_options`, recorded by the top-level call), 2 the subproject's own `default_options` —
+  step 2 only when neither machine file (3) nor command line (4) give the global `n` (or `n` is a top-level
+  project option), else
+* the global value `o.value`, which by `toplevel_precedence` is the first of steps 4, 3, 1, default.
+All 2^8 subsets of the sources are instances. -/
+theorem subproject_precedence (n sub : Str) (id : Nat) (s s' : Store) (o : Obj) (x : Option Val)
+    (spcall pdo cmd mf : Dict)
+    (hn : (n == sPrefix) = false) (hbt : (n == sBuildtype) = false)
+    (hdn : n ≠ sDebug ∧ n ≠ sOptimization)
+    (hnp : (Tables.nopfxTable.map (·.1)).contains n = false)
+    (g : GoodSub ⟨n, some sub, .host⟩ id s o x)
+    (hin : ∀ k ∈ (pdo ++ spcall ++ s.pendingSub ++ mf ++ cmd).map Prod.fst, k.name = n → k.machine = .host)
+    (hrun : initSub sub spcall pdo cmd mf s = (.ok (), s')) :
+    getValueFor s' ⟨n, some sub, .host⟩ = .ok (x.getD
+      (((ofirst (alast ⟨n, some sub, .host⟩ cmd)
+        (ofirst (alast ⟨n, some sub, .host⟩ mf)
+        (ofirst (alast ⟨n, none, .host⟩ spcall)
+        (ofirst (alast ⟨n, some sub, .host⟩ s.pendingSub)
+        (if ((alast ⟨n, none, .host⟩ cmd).isSome || (alast ⟨n, none, .host⟩ mf).isSome)
+              && !(s.projectOptions.contains ⟨n, some [], .host⟩) then none
+         else alast ⟨n, none, .host⟩ pdo))))).map (cleaned o.kind)).getD o.value)) := by
+  cases hd : mergeSub s.projectOptions s.pendingSub sub spcall pdo cmd mf with
+  | error e =>
+    simp [initSub, Bind.bind, M.bind, M.get, hd, M.ofExcept, M.fail] at hrun
+  | ok d =>
+    have hother := merged_other s.projectOptions s.pendingSub sub n spcall pdo cmd mf d hd hin
+    rw [initSub_value ⟨n, some sub, .host⟩ id s s' o x sub spcall pdo cmd mf d rfl rfl hn hbt hdn hnp g hd hother hrun,
+      mergeSub_lookup sub n .host s.projectOptions s.pendingSub spcall pdo cmd mf d hd]
+
+/-! ## yielding, generally -/
+
+/-- in **any** store: a yielding subproject option without override whose parent pointer is the current object
+of the top-level option `:n` reports exactly what the top-level project sees for `:n` -/
+theorem yielding_reports_parent_option (s : Store) (n sub : Str) (idc idp : Nat) (c p : Obj)
+    (hc : alookup ⟨n, some sub, .host⟩ s.options = some idc) (hco : s.heap[idc]? = some c)
+    (hca : alookup ⟨n, some sub, .host⟩ s.augments = none)
+    (hy : c.yielding = true) (hpar : c.parent = some idp)
+    (hp : alookup ⟨n, some [], .host⟩ s.options = some idp) (hpo : s.heap[idp]? = some p)
+    (hpa : alookup ⟨n, some [], .host⟩ s.augments = none) (hpy : p.yielding = false) :
+    getValueFor s ⟨n, some sub, .host⟩ = getValueFor s ⟨n, some [], .host⟩ := by
+  have e1 := ensureKey_host s ⟨n, some sub, .host⟩ rfl
+  have e2 := ensureKey_host s ⟨n, some [], .host⟩ rfl
+  rw [yielding_takes_parent s _ idc idp c p (by simp [resolveId, e1, hc]) hco (by rw [e1]; exact hca) hy hpar hpo,
+    own_value_otherwise s _ idp p (by simp [resolveId, e2, hp]) hpo (by rw [e2]; exact hpa) hpy]
+
+/-- `yielding_takes_parent` through `initialize_from_subproject_call`, **for every store and arbitrary input
+dicts**: if no source addresses the yielding option itself (the merged dict holds nothing for `sub:n`; entries
+naming `n` are host-machine keys), then after the call it still reports the parent object's value — whatever
+else the call sets, expands, parks or rejects on the way (the call's result may even be an exception) -/
+theorem yielding_takes_parent_through_subproject_call (s : Store) (n sub : Str) (idc idp : Nat) (c p : Obj)
+    (spcall pdo cmd mf d : Dict)
+    (hdn : n ≠ sDebug ∧ n ≠ sOptimization)
+    (hnp : (Tables.nopfxTable.map (·.1)).contains n = false)
+    (hc : alookup ⟨n, some sub, .host⟩ s.options = some idc) (hco : s.heap[idc]? = some c)
+    (hca : alookup ⟨n, some sub, .host⟩ s.augments = none)
+    (hy : c.yielding = true) (hpar : c.parent = some idp) (hpo : s.heap[idp]? = some p)
+    (hownc : OwnObject n idc s) (hownp : OwnObject n idp s)
+    (hd : mergeSub s.projectOptions s.pendingSub sub spcall pdo cmd mf = .ok d)
+    (hnone : alookup ⟨n, some sub, .host⟩ d = none)
+    (hin : ∀ k ∈ (pdo ++ spcall ++ s.pendingSub ++ mf ++ cmd).map Prod.fst, k.name = n → k.machine = .host) :
+    getValueFor (initSub sub spcall pdo cmd mf s).2 ⟨n, some sub, .host⟩ = .ok p.value := by
+  have hP : ∀ kv ∈ d, kv.1.sub ≠ some sub ∨ kv.1.name ≠ n := by
+    intro kv hkv
+    rcases merged_other s.projectOptions s.pendingSub sub n spcall pdo cmd mf d hd hin kv hkv with h | h
+    · exact absurd h (not_mem_of_alookup_none hnone kv hkv)
+    · exact h
+  have f1 := initSub_frame ⟨n, some sub, .host⟩ idc s sub spcall pdo cmd mf d hd hP hnp hdn hownc
+  have f2 := initSub_frame ⟨n, some sub, .host⟩ idp s sub spcall pdo cmd mf d hd hP hnp hdn hownp
+  generalize (initSub sub spcall pdo cmd mf s).2 = s' at f1 f2
+  obtain ⟨_, ho, _, _, hh1, ha1⟩ := f1
+  have hh2 := f2.2.2.2.2.1
+  have e1 := ensureKey_host s' ⟨n, some sub, .host⟩ rfl
+  exact yielding_takes_parent s' _ idc idp c p (by simp [resolveId, e1, ho, hc]) (by rw [hh1]; exact hco)
+    (by rw [e1, ha1]; exact hca) hy hpar (by rw [hh2]; exact hpo)
+
 /-! ### through the whole state machine, for every subset of the sources
 
 The scenarios below run the *complete* model (`add_system_option` / `add_project_option`,
@@ -353,6 +441,19 @@ example : Good kOpt 0 (run (Store.new false) [.addSystem kOpt comboSpec])
   simp only [alookup] at h
   split at h
   · next e => exact absurd (by rw [← e]) hn
+  · cases h
+
+/-- the hypotheses of `subproject_precedence` are satisfiable -/
+example : GoodSub kSub 0 (run (Store.new false) [.addSystem kOpt comboSpec])
+    { kind := comboSpec.kind, value := cval 0, default := cval 0, yielding := false, readonly := false, parent := none }
+    none := by
+  refine ⟨by rfl, by rfl, ?_, by rfl, by decide, by decide, by rfl, rfl⟩
+  intro key i h hn
+  have hopt : (run (Store.new false) [.addSystem kOpt comboSpec]).options = [(kOpt, 0)] := by rfl
+  rw [hopt] at h
+  simp only [alookup] at h
+  split at h
+  · next e => exact absurd (by rw [← e]; rfl) hn
   · cases h
 
 /-- `toplevel_precedence` on all 2^3 subsets of the three sources (the fourth source, the declared default, is
